@@ -427,16 +427,23 @@ VERUS_UNITS["C31"] = dict(prop="C31", witness=c31_witness, template="contracts/v
 
 
 VERUS_UNITS["C12"] = dict(prop="C12", template="contracts/verus/c12.rs.tmpl", gen_name="c12", ledger="obligations/c12.json", level="other",
-    explanation=("PARTIAL: COUNT WINDOW ONLY (tumbling and session windows are NOT decided: they compare chrono instants, which neither verifier can carry here). "
-                 "CountWindow::{new, add_shared, flush_shared, current_count} (window.rs) and ColumnarBuffer::{with_capacity, push, take_all, len} (columnar.rs) are extracted "
-                 "mechanically and verified by Verus: with count >= 1, add_shared appends the arriving event to the buffer and EITHER closes the window, emitting the whole buffer in "
-                 "arrival order with exactly `count` events and leaving the buffer empty, OR emits nothing and keeps the event buffered. By induction over arrivals every event is "
-                 "emitted in exactly one closed window or is still buffered, in arrival order, never twice, and a count window closes with exactly its size. The lazily built column "
-                 "cache and the timestamp column are opaque (cleared / appended only). Not covered: CountWindow::add / flush (clone shells over the shared variants), checkpoint/restore."),
-    assumptions=["R14: `(c).then(|| e)` is `if c { Some(e) } else { None }` (definition of bool::then)",
+    explanation=("PARTIAL: the plain count, tumbling and session windows (NOT the partitioned variants, which sit on hash maps keyed by strings, and not the engine glue that "
+                 "routes events / watermarks to them). CountWindow::{new, add_shared, flush_shared, current_count}, TumblingWindow::{new, add_shared, flush_shared, advance_watermark}, "
+                 "SessionWindow::{new, add_shared, flush_shared, check_expired, advance_watermark} (window.rs) and ColumnarBuffer::{new, with_capacity, push, take_all, len, is_empty} "
+                 "(columnar.rs) are extracted mechanically and verified by Verus for every event, every time stamp (in order, out of order, ties) and every interleaving of arrivals "
+                 "and watermarks, as ONE-STEP contracts over the buffered sequence: each call EITHER emits the whole buffer in arrival order and starts over (with the arriving event, "
+                 "if any) OR emits nothing and appends the arriving event — so, by induction over calls, every event is emitted in exactly one closed window or still buffered, in "
+                 "arrival order, never twice. Close rules are exact: count window at exactly `count` events; tumbling window iff the event / watermark is not earlier than start + "
+                 "duration; session iff the event is more than `gap` after the previous arrival (watermark: not earlier than last + gap); a non-closing watermark changes nothing. "
+                 "Invariants: every buffered event of a tumbling window is earlier than window start + duration (lemma: hence earlier than the FIRST buffered event + duration for "
+                 "in-order streams); consecutive buffered events of a session are at most `gap` apart and the recorded last-event time is the last buffered event's time. "
+                 "Not covered: add / flush clone shells, flush_columnar, checkpoint/restore, partitioned windows."),
+    assumptions=["chrono model (contracts/verus/chrono_model.rs, R16): DateTime<Utc> / Duration are values with an integer view and `+`, `-`, `<`, `>=` are the mathematical "
+                 "operations on it — chrono's overflow panics and its internal representation are NOT modelled",
+                 "R14: `(c).then(|| e)` is `if c { Some(e) } else { None }` (definition of bool::then)",
                  "core::mem::take on Vec<T> returns the old vector and leaves an empty one (assumed contract vpv_mem_take_vec)",
-                 "chrono timestamp_millis and the FxHashMap column cache are opaque (their values do not influence which events are emitted)",
-                 "count >= 1 (CountWindow::new(0) would emit every event as a window of one: excluded by precondition)"])
+                 "the event payload, chrono timestamp_millis and the FxHashMap column cache are opaque (their values do not influence which events are emitted)",
+                 "count >= 1 (CountWindow::new(0) would emit every event as a window of one) and duration > 0 (TumblingWindow::new precondition)"])
 
 
 VERUS_UNITS["C13"] = dict(prop="C13", template="contracts/verus/c13.rs.tmpl", gen_name="c13", ledger="obligations/c13.json", level="other",
